@@ -31,7 +31,7 @@ mod verif_nx_cursor_ml {
                                 let mut cur = Cursor(0);
                                 let mut tracker = CursorTrackerImpl {
                                     reconstructor: &recon,
-                                    cursors: vec![InternalCursor { cursor: &mut cur, tok_idx: 1, tok_pos: TokPos::MultilineContent { reverse_col: rc, newlines_after_cursor: nla } }],
+                                    cursors: vec![InternalCursor { cursor: &mut cur, tok_idx: 1, tok_pos: TokPos::MultilineContent { reverse_col: rc as _, newlines_after_cursor: nla as _ } }],
                                 };
                                 tracker.relocate_cursors(&ft);
                                 drop(tracker);
